@@ -6,6 +6,7 @@ import (
 	"context"
 	"errors"
 	"fmt"
+	"math"
 	"runtime"
 	"sync"
 	"sync/atomic"
@@ -40,13 +41,21 @@ func errKind(err error) string {
 	if errors.As(err, &ts) {
 		return "toosoon"
 	}
-	if errors.Is(err, context.Canceled) {
+	if err == context.Canceled {
 		return "canceled"
 	}
-	if errors.Is(err, context.DeadlineExceeded) {
+	if err == context.DeadlineExceeded {
 		return "deadline"
 	}
 	return "other:" + err.Error()
+}
+
+// hugeNum: durations beyond what a JSON number carries exactly travel by name.
+func hugeNum(a any) int64 {
+	if name, ok := a.(string); ok {
+		return map[string]int64{"maxint": math.MaxInt64, "maxint-1": math.MaxInt64 - 1, "2^62": 1 << 62, "zero": 0}[name]
+	}
+	return int64(num(a))
 }
 
 func runSleep(c *Case) *Obs {
@@ -62,9 +71,18 @@ func runSleep(c *Case) *Obs {
 			if ctx != nil {
 				continue
 			}
-			ctx, cancel = context.WithCancel(context.Background())
+			if last, _ := op[len(op)-1].(string); last == "cause" {
+				// cancelled with a cause: ctx.Err() stays context.Canceled, which is what SleepContext must return
+				c2, cc := context.WithCancelCause(context.Background())
+				ctx, cancel = c2, func() { cc(errors.New("verif: the cause the context was cancelled with")) }
+			} else {
+				ctx, cancel = context.WithCancel(context.Background())
+			}
 			if str(op[1]) == "deadline" {
-				dl := time.Now().Add(time.Duration(num(op[2])))
+				dl := time.Now().Add(time.Duration(hugeNum(op[2])))
+				if z, _ := op[2].(string); z == "zero" {
+					dl = time.Time{} // a deadline further in the past than a Duration can express
+				}
 				ctx, cancel2 = context.WithDeadline(ctx, dl)
 				h.add("ctx", "deadline", h.since(dl))
 			} else {
@@ -79,7 +97,7 @@ func runSleep(c *Case) *Obs {
 			if ctx == nil || done != nil {
 				continue
 			}
-			d := time.Duration(num(op[1]))
+			d := time.Duration(hugeNum(op[1]))
 			done = make(chan struct{})
 			go func(ctx context.Context, done chan struct{}) {
 				h.add("call", int64(d))
